@@ -53,6 +53,10 @@ partial def parse : List String → Option (Expr × Option CExpr × List String)
       let n := (w.drop 1).toString
       some (.ref n, some (.ref n), rest)
     else if w == "unsup" then some (.unsupported, none, rest)
+    else if w == "unsupbin" then do
+      let (l, _, rest) ← parse rest
+      let (r, _, rest) ← parse rest
+      pure (.binOther l r, none, rest)
     else if w == "pos" then do
       let (e, c, rest) ← parse rest
       pure (.pos e, c.map .pos, rest)
